@@ -313,14 +313,18 @@ def _narrow(k=1):
     """Restrict this worker (and so the tool it starts next) to k randomly
     chosen CPUs: the tool's thread pool creates one thread per allowed CPU
     (~40 ms of start-up on 16, and every extra thread costs a spinning
-    hand-shake); a different CPU for every run, some other job may be spinning
-    on any one of them."""
+    hand-shake).  A different CPU for every run, and not one of the first four
+    when there are at least eight: mpirun binds ranks to cores 0,1,.. and a
+    process confined to such a CPU was observed to stall for minutes.
+    k = 0: no restriction."""
     global _ALL_CPUS
     try:
         if _ALL_CPUS is None:
             _ALL_CPUS = sorted(os.sched_getaffinity(0))
-        os.sched_setaffinity(0, set(random.sample(_ALL_CPUS,
-                                                  min(k, len(_ALL_CPUS)))))
+        if k <= 0:
+            return
+        pool = _ALL_CPUS[4:] if len(_ALL_CPUS) >= 8 else _ALL_CPUS
+        os.sched_setaffinity(0, set(random.sample(pool, min(k, len(pool)))))
     except (AttributeError, OSError):
         pass
 
@@ -335,19 +339,20 @@ def _widen():
 
 def tool(conv, ctx, args, inp, out, must_succeed=True):
     """Runs graph-convert <args> inp out.  Returns (returncode, text).  A run
-    that exceeds the time limit is repeated twice with a longer limit (the box
-    may be overloaded); only three time-outs in a row are a hang."""
+    that exceeds the time limit is repeated twice, without CPU restriction and
+    with a longer limit (the box may be overloaded); only three time-outs in a
+    row are reported as a hang."""
     cmd = [Ctx.exe] + list(args) + [inp, out]
     r = None
+    limits = (TOOL_TIMEOUT, 3 * TOOL_TIMEOUT, 6 * TOOL_TIMEOUT)
     for attempt in range(3):
         Ctx.nruns += 1
-        _narrow(1 if attempt == 0 else 4)
+        _narrow(1 if attempt == 0 else 0)
         try:
             r = subprocess.run(cmd, stdin=subprocess.DEVNULL,
                                stdout=subprocess.PIPE,
                                stderr=subprocess.STDOUT,
-                               timeout=TOOL_TIMEOUT * (1 + 2 * attempt),
-                               cwd=Ctx.dir)
+                               timeout=limits[attempt], cwd=Ctx.dir)
             break
         except subprocess.TimeoutExpired:
             rm(out)
@@ -355,7 +360,7 @@ def tool(conv, ctx, args, inp, out, must_succeed=True):
             _widen()
     if r is None:
         fail(conv + ":hang", "%s: `graph-convert %s` did not finish in %d s "
-             "(three attempts)" % (ctx, " ".join(args), TOOL_TIMEOUT * 5))
+             "(third attempt)" % (ctx, " ".join(args), limits[2]))
     text = r.stdout.decode(errors="replace")
     if must_succeed and r.returncode != 0:
         fail(conv + ":tool-failed", "%s: `graph-convert %s` exited with %d: %s"
@@ -1139,6 +1144,82 @@ def t_binpbbs(conv, ctx, n, edges, ty, bits):
     return h_of(idx + adj)
 
 
+def t_metis(conv, ctx, n, edges, ty, var):
+    # "Convert binary gr to METIS graph (unweighted)"; source: "METIS format
+    # (1-indexed) ... <num nodes> <num edges> ... [<destination>]* per node ...
+    # Input graph must be symmetric. Does not write self-edges."  Only for
+    # symmetric inputs; an undirected edge is counted once in the header.
+    pairs = Counter((s, d) for (s, d, _w) in edges)
+    if pairs != Counter((d, s) for (s, d, _w) in edges):
+        return 0
+    (txt,) = run_gr2text(conv, ctx, ["-gr2metis"], n, edges, ty)
+    lines = txt.decode().split("\n")
+    if lines and lines[-1] == "":
+        lines.pop()
+    lines = [l for l in lines if not l.startswith("%")]
+    nl = [(s, d) for (s, d, _w) in edges if s != d]
+    if not lines or lines[0].split() != [str(n), str(len(nl) // 2)]:
+        fail(conv + ":text-format", "%s: size line %r, expected '%d %d'"
+             % (ctx, lines[:1], n, len(nl) // 2))
+    if len(lines) != 1 + n:
+        fail(conv + ":node-count", "%s: %d node lines for %d nodes"
+             % (ctx, len(lines) - 1, n))
+    got = []
+    for u, line in enumerate(lines[1:]):
+        got += [(u, int(t) - 1) for t in line.split()]
+    if Counter(got) != Counter(nl):
+        fail(conv + ":edges", "%s: metis adjacency %s, expected %s"
+             % (ctx, sorted(got), sorted(nl)))
+    return h_of(txt)
+
+
+def t_nodelist2gr(conv, ctx, n, edges, ty, var):
+    # "Convert node list to binary gr"; source: "List of node adjacencies:
+    # <node id> <num neighbors> <neighbor id>*".  The text lists every node of
+    # the enumerated graph (also those without neighbours).
+    adj = [[] for _ in range(n)]
+    for (s, d, _w) in edges:
+        adj[s].append(d)
+    text = "".join("%d %d%s\n" % (u, len(a), "".join(" %d" % d for d in a))
+                   for u, a in enumerate(adj)).encode()
+    ctx = ctx + " input %r" % text.decode()
+    b = text_to_gr(conv, ctx, ["-nodelist2gr"], text)
+    dec = decode_gr(conv, ctx, b)
+    check_graph(conv, ctx, dec, ty, {n}, edges)
+    return h_of(b)
+
+
+def t_edgelist2binary(conv, ctx, n, edges, ty, var):
+    # "Convert edge list to binary edgelist format (assumes vertices of type
+    # uin32_t)": the (src,dst) pairs as little-endian uint32, in input order.
+    text = "".join("%d %d\n" % (s, d) for (s, d, _w) in edges).encode()
+    inp, out = fresh(".el"), fresh(".bin")
+    write_file(inp, text)
+    try:
+        tool(conv, ctx, ["-edgelist2binary"], inp, out)
+        b = read_file(out) if os.path.exists(out) else None
+    finally:
+        rm(inp, out)
+    if b is None:
+        fail(conv + ":no-output", "%s: no output file" % ctx)
+    exp = b"".join(struct.pack("<II", s, d) for (s, d, _w) in edges)
+    if b != exp:
+        fail(conv + ":edges", "%s: output bytes %s, expected %s"
+             % (ctx, b.hex(), exp.hex()))
+    return h_of(b)
+
+
+def t_sortedparentdegree(conv, ctx, n, edges, ty, var):
+    # "Sort nodes by degree of parent".  Checked: the output is the input with
+    # its nodes renumbered (ACCEPT: any order -- the option text does not
+    # define one precisely enough to check).
+    b = run_gr2gr(conv, ctx, ["-gr2sortedparentdegreegr", "-edgeType=" + ty],
+                  n, edges, ty)
+    dec = decode_gr(conv, ctx, b)
+    find_perm(conv, ctx, dec, ty, n, edges, lambda p: True, "")
+    return h_of(b)
+
+
 # ---------------------------------------------------------------------------
 # text -> gr
 # ---------------------------------------------------------------------------
@@ -1571,6 +1652,12 @@ def build_cases():
                              ("1ind",), qb=Q2, tb=TB(ty)))
         cs.append(graph_case("gr2pbbs" + T, t_pbbs, ty, qb=Q2, tb=TB(ty)))
     cs.append(graph_case("gr2trigr edgeType=void", t_trigr, "void"))
+    cs.append(graph_case("gr2metis", t_metis, "void"))
+    cs.append(graph_case("nodelist2gr", t_nodelist2gr, "void", qb=Q2))
+    cs.append(graph_case("edgelist2binary", t_edgelist2binary, "void", qb=Q2))
+    for ty in ["void", "int32"]:
+        cs.append(graph_case("gr2sortedparentdegreegr edgeType=" + ty,
+                             t_sortedparentdegree, ty, qb=Q2, tb=TB(ty)))
     cs.append(graph_case("gr2adjacencylist edgeType=void", t_adjlist, "void",
                          qb=Q2))
     cs.append(graph_case("gr2binarypbbs32", t_binpbbs, "void", (32,), qb=Q2))
